@@ -943,6 +943,9 @@ def _xproc_child(payload):
   return {'traces': traces, 'violation_keys': ctx.violation_keys, 'violations': ctx.violations}
 
 
+
 if __name__ == '__main__':
   from vmon import xproc as _xproc
   _xproc.child_main(_xproc_child)
+
+TECHNIQUE += '; interleaved scans; bulk builds of 1e3-4e3 clients; replay of histories in a fresh interpreter under another PYTHONHASHSEED'
